@@ -39,6 +39,7 @@ type E7Spec struct {
 	DottedSuffix  []FuncRuleSpec     `json:"dotted_suffix"`
 	EdgeClosure   []EdgeClosureSpec  `json:"edge_closure"`
 	NilableGlobal []FuncRuleSpec     `json:"nilable_globals"`
+	TrimCutset    []FuncRuleSpec     `json:"trim_cutset"`
 }
 
 type FuncRuleSpec struct {
@@ -146,6 +147,9 @@ func runE7(p *Program, sp *Spec, c *Collector) {
 	}
 	for _, ng := range t.NilableGlobal {
 		runNilableGlobals(p, c, ng)
+	}
+	for _, tc := range t.TrimCutset {
+		runTrimCutset(p, c, tc)
 	}
 	for _, n := range t.NoExit {
 		runNoExit(p, sp, c, n)
@@ -2340,5 +2344,41 @@ func runNilableGlobals(p *Program, c *Collector, a FuncRuleSpec) {
 	}
 	if n == 0 {
 		c.Ob(a.Props, "E7.nilable-global", "nilable:"+strings.Join(a.Funcs, ","), Discharged, a.What+": no package-level pointer that is ever set to nil is dereferenced", "", true)
+	}
+}
+
+
+// ---------------------------------------------------------------------------------------------
+// cutset or prefix: strings.TrimLeft / TrimRight / Trim remove every leading (trailing) character that occurs in their
+// second argument. With a constant set of punctuation that is what is meant; with a variable (a directory, a name) the
+// author meant TrimPrefix / TrimSuffix, and the call eats as many characters of the text as happen to occur in the variable.
+
+func runTrimCutset(p *Program, c *Collector, a FuncRuleSpec) {
+	n := 0
+	for _, fn := range expandFuncs(p, c, a.Funcs, a.Props...) {
+		k := 0
+		for _, b := range fn.Blocks {
+			for _, in := range b.Instrs {
+				call, ok := in.(*ssa.Call)
+				if !ok || call.Call.StaticCallee() == nil {
+					continue
+				}
+				name := fullFuncName(call.Call.StaticCallee())
+				if name != "strings.TrimLeft" && name != "strings.TrimRight" && name != "strings.Trim" {
+					continue
+				}
+				k++
+				n++
+				key := fmt.Sprintf("trimcutset:%s %s#%d", p.FuncKey(fn), name, k)
+				if cs, isC := constString(call.Call.Args[1]); isC {
+					c.Ob(a.Props, "E7.trim-cutset", key, Discharged, fmt.Sprintf("constant character set %q", cs), p.InstrPos(call), true)
+				} else {
+					c.Ob(a.Props, "E7.trim-cutset", key, Violated, a.What+": "+name+" is given a variable as its character set: every leading/trailing character of the text that occurs anywhere in it is removed, not the prefix/suffix (tree/ee/Tree.java with the set \"tree/\" becomes Tree.java)", p.InstrPos(call), false)
+				}
+			}
+		}
+	}
+	if n == 0 {
+		c.Ob(a.Props, "E7.trim-cutset", "trimcutset:"+strings.Join(a.Funcs, ","), Discharged, a.What+": no cutset trimming in these functions", "", true)
 	}
 }
